@@ -576,6 +576,8 @@ def run(prog, ctx):
         ch = ("undecided", repr(ex))
     res.tri(None if ch[0] == "undecided" else ch[0] == "ok", "C02.C", "C02.C|hll|chain", "list / set / array promotion chain: %s" % (ch[1],), ch[2] if len(ch) > 2 else None)
     res.rule("C02.C", 1, 1, "list / set / array promotion chain (C18.K chain)")
+    # the hash every slot / row / bucket is derived from is the published one for every way of feeding it (C16 rules on the murmur state)
+    C.import_rules(res, prog, ctx, "C02.H", "C16", ("C16.B", "C16.C", "C16.T", "C16.K", "C16.W"), "MurmurHash3 the HLL coupon is derived from", 0, key_filter=lambda k: "urmur" in k)
     res.explanation = ("structural rules over the MIR of the %d functions reachable from HllSketch::update: guarded strict max-write, slot "
                        "formula (evaluated on %d grid points), estimator pairing, replay loops, 4-bit encoding agreement, probe geometry, "
                        "dispatch completeness" % (len(reach), 18 * 12))
